@@ -34,12 +34,12 @@ def run(rep):
     obls += [(rounding.rounding, (m, k, -50, 75, 1500)) for m in modes for k in keys]
     results = base.run_obligations(rep, obls)
     cands = [c for x in results for c in x["cands"]]
-    if cands:
+    if cands or any(x["inconclusive"] for x in results):
         from . import c11
         a = pp.confirm_kadj(rep, results, "C07")
         r_ = c11.confirm_rounding(rep, results)
         b = pp.run_panic_grid(rep)
-        if not (a or b or r_):
+        if not (a or b or r_) and cands:
             rep.inconclusive.append("solver-found panic paths were not reproduced natively; first: %r" % (cands[0],))
     rep.samples = [{"obligation": o["name"], "status": o["status"], "paths": o.get("paths")} for o in rep.obligations[:6]]
 
